@@ -1,13 +1,23 @@
 #!/bin/bash
 # tools/runmutant.sh <patch.diff> <tier> <prop> [prop...]
-# Applies a seeded change to /repo's working tree, runs the named checks, and ALWAYS restores the tree afterwards.
+# Runs the named checks against a seeded change. Default: apply to /repo's working tree and ALWAYS restore it afterwards.
+# With MUT_WORKTREE=1 the change is applied in a scratch worktree under /tmp instead (use while /repo must stay untouched,
+# e.g. during a background sweep); the worktree is removed afterwards.
 # Prints one line per check: <prop> exit=<code> <first violation key or ->.
 set -u
 patch="$1"; tier="$2"; shift 2
-if ! git -C /repo diff --quiet; then echo "runmutant: /repo has uncommitted changes, refusing" >&2; exit 2; fi
-restore() { git -C /repo checkout -- . ; git -C /repo clean -fdq pkg >/dev/null 2>&1; }
-trap restore EXIT
-if ! git -C /repo apply "$patch"; then echo "runmutant: patch does not apply" >&2; exit 2; fi
+if [ "${MUT_WORKTREE:-0}" = 1 ]; then
+  wt=/tmp/wt-mut-$$
+  git -C /repo worktree add -q --detach $wt HEAD || exit 2
+  trap 'git -C /repo worktree remove --force '$wt'; git -C /repo worktree prune' EXIT
+  if ! git -C $wt apply "$patch"; then echo "runmutant: patch does not apply" >&2; exit 2; fi
+  export VERIF_REPO=$wt
+else
+  if ! git -C /repo diff --quiet; then echo "runmutant: /repo has uncommitted changes, refusing" >&2; exit 2; fi
+  restore() { git -C /repo checkout -- . ; git -C /repo clean -fdq pkg >/dev/null 2>&1; }
+  trap restore EXIT
+  if ! git -C /repo apply "$patch"; then echo "runmutant: patch does not apply" >&2; exit 2; fi
+fi
 for p in "$@"; do
   out=$(cd /verif && VERIF_EVIDENCE_DIR=/verif/.build/mutant-evidence bin/check "$p" "$tier" 2>&1); code=$?
   key=$(echo "$out" | grep -m1 '^  key:' | sed 's/^  key: //')
